@@ -2,6 +2,8 @@ package main
 
 import (
 	"crypto/elliptic"
+	"crypto/sha256"
+	"encoding/hex"
 	"encoding/json"
 	"fmt"
 	"github.com/bnb-chain/tss-lib/v2/crypto/commitments"
@@ -52,6 +54,73 @@ type faultResult struct {
 	BadOutput string              `json:"bad_output"`
 	Erased    []string            `json:"erased"`
 	Wall      float64             `json:"wall"`
+	// recommit-torsion only: digests of the honest parties' outputs in the unaltered run and in the altered one (same seed)
+	Baseline string `json:"baseline,omitempty"`
+	Outcome  string `json:"outcome,omitempty"`
+}
+
+// outcomeDigest: what the honest parties emitted, as JSON (key data / signature data), in node order.
+func outcomeDigest(rc *runCtx, deviator string) string {
+	var sb strings.Builder
+	for _, n := range rc.net.Nodes() {
+		if n.Name == deviator {
+			continue
+		}
+		n.Results()
+		sb.WriteString(n.Name + ":")
+		for _, x := range rc.results[n.Name] {
+			b, _ := json.Marshal(x)
+			sb.Write(b)
+		}
+		if len(n.Errs) > 0 {
+			sb.WriteString(" error=" + n.Errs[0])
+		}
+		sb.WriteString("\n")
+	}
+	h := sha256.Sum256([]byte(sb.String()))
+	return hex.EncodeToString(h[:8])
+}
+
+// torsionOpening: the opened list [randomness, x0, y0, ..., xt, yt] with the point of order two of the Edwards curve added to
+// the LAST point ((x, y) + (0, -1) = (-x, -y)), and the commitment that opens to it.
+func torsionOpening(d []*big.Int) ([]byte, [][]byte, bool) {
+	if len(d) < 3 || len(d)%2 != 1 {
+		return nil, nil, false
+	}
+	P := tss.Edwards().Params().P
+	vals := make([]*big.Int, len(d)-1)
+	copy(vals, d[1:])
+	k := len(vals) - 2
+	vals[k] = new(big.Int).Mod(new(big.Int).Neg(vals[k]), P)
+	vals[k+1] = new(big.Int).Mod(new(big.Int).Neg(vals[k+1]), P)
+	cmt := commitments.NewHashCommitmentWithRandomness(d[0], vals...)
+	open := make([][]byte, len(cmt.D))
+	for i, x := range cmt.D {
+		open[i] = x.Bytes()
+	}
+	return cmt.C.Bytes(), open, true
+}
+
+// wireList reads a repeated bytes field of the content of a wire message.
+func wireList(wire []byte, field string) []*big.Int {
+	var a anypb.Any
+	if proto.Unmarshal(wire, &a) != nil {
+		return nil
+	}
+	m, err := a.UnmarshalNew()
+	if err != nil {
+		return nil
+	}
+	mr := m.ProtoReflect()
+	fd := mr.Descriptor().Fields().ByName(protoreflect.Name(field))
+	if fd == nil || !fd.IsList() {
+		return nil
+	}
+	var out []*big.Int
+	for i := 0; i < mr.Get(fd).List().Len(); i++ {
+		out = append(out, new(big.Int).SetBytes(mr.Get(fd).List().Get(i).Bytes()))
+	}
+	return out
 }
 
 // alterField rewrites one field of the protobuf content inside an Any.
@@ -378,8 +447,13 @@ func faultRunners() []faultRunner {
 			return judgeEdDSASig(rc, honest, ks[0].EDDSAPub.X(), ks[0].EDDSAPub.Y())
 		}})
 	var edOld []*big.Int
+	edNewT := 1
 	out = append(out, faultRunner{proto: "eddsa_resharing", cost: 2,
 		build: func(seed int64) *runCtx {
+			edNewT = 1
+			if faultShape == 3 {
+				edNewT = 2
+			}
 			ks, pids := edKeys(3, 1, nil)
 			old := []eddsakeygen.LocalPartySaveData{ks[0], ks[1]}
 			edOld = nil
@@ -396,6 +470,8 @@ func faultRunners() []faultRunner {
 				return buildEdDSAReshareOpt(old, subsetPIDs(pids, 3), 3, 1, reshareOpts{newKeys: defaultKeys(2, 700), newT: 1, seed: fmt.Sprintf("f-%d", seed)}, false)
 			case 2:
 				return buildEdDSAReshareOpt(old, subsetPIDs(pids, 2), 3, 1, reshareOpts{newKeys: defaultKeys(4, 700), newT: 1, seed: fmt.Sprintf("f-%d", seed)}, false)
+			case 3: // the threshold is raised: 2 old (t=1) -> 3 new (t'=2)
+				return buildEdDSAReshareOpt(old, subsetPIDs(pids, 2), 3, 1, reshareOpts{newKeys: defaultKeys(3, 700), newT: 2, seed: fmt.Sprintf("f-%d", seed)}, false)
 			}
 			return buildEdDSAReshareOpt(old, subsetPIDs(pids, 2), 3, 1, reshareOpts{newKeys: defaultKeys(3, 700), newT: 1, seed: fmt.Sprintf("f-%d", seed)}, false)
 		},
@@ -406,7 +482,7 @@ func faultRunners() []faultRunner {
 					hn = append(hn, n)
 				}
 			}
-			return judgeKeygen(rc, hn, "ed25519", 1)
+			return judgeKeygen(rc, hn, "ed25519", edNewT)
 		},
 		erased: func(rc *runCtx) []string {
 			var out []string
@@ -577,7 +653,36 @@ func runFault(fr faultRunner, f fault, seed int64) faultResult {
 	if f.Kind == "index-sweep" {
 		faultShape = f.Index
 	}
+	if f.Kind == "recommit-torsion" {
+		faultShape = 3 // resharing: the new threshold is above the old one
+	}
 	shape := faultShape
+	// recommit-torsion, first pass: the same run (same seed, so the same values) unaltered, to learn what the deviator will open
+	// and what the honest parties emit
+	var torsionC []byte
+	var torsionD [][]byte
+	var torsionOrig []*big.Int
+	baseline := ""
+	if f.Kind == "recommit-torsion" {
+		rc0 := fr.build(seed)
+		rc0.net.Rng = rand.New(rand.NewSource(seed))
+		for _, pair := range commitPairs[f.Proto] {
+			if pair.commitType != f.Type {
+				continue
+			}
+			rc0.net.Tamper = func(c *sched.Copy) {
+				if c.From.Name == f.Deviator && c.Type == pair.openType && torsionOrig == nil {
+					torsionOrig = wireList(c.Wire, pair.openField)
+				}
+			}
+		}
+		rc0.net.Run(sched.FIFO, 200000)
+		baseline = outcomeDigest(rc0, f.Deviator)
+		if torsionOrig != nil {
+			torsionC, torsionD, _ = torsionOpening(torsionOrig)
+		}
+		faultShape = shape
+	}
 	if strings.HasPrefix(f.Kind, "config-threshold") {
 		// the deviator runs the honest code with a threshold one above / below the agreed one (it deals a polynomial of another degree)
 		cfgDeviator, cfgThresholdDelta = f.Deviator, 1
@@ -636,7 +741,18 @@ func runFault(fr faultRunner, f fault, seed int64) faultResult {
 		res.Wall = time.Since(t0).Seconds()
 		return res
 	}
-	seen := map[string][]byte{}    // last wire per "type/sender/recipient-independent"
+	seen := map[string][]byte{} // last wire per "type/sender/recipient-independent"
+	// "@late": one honest party (the first that is not the deviator) calls Start only when nothing else can happen, so the
+	// first-round messages - the altered one among them - are already in its inbox and are replayed by Start itself
+	lateVictim := ""
+	if strings.HasSuffix(f.Kind, "@late") {
+		for _, n := range net.Nodes() {
+			if n.Name != f.Deviator && (n.Comm == 'N' || len(net.Old) == 0 || !strings.HasPrefix(f.Deviator, "O")) {
+				lateVictim = n.Name
+				break
+			}
+		}
+	}
 	altered := map[string][]byte{} // original wire -> altered wire: every copy of one broadcast is altered identically (no equivocation)
 	injected := false
 	net.Tamper = func(c *sched.Copy) {
@@ -661,6 +777,34 @@ func runFault(fr faultRunner, f fault, seed int64) faultResult {
 				if pair.commitType != f.Type {
 					continue
 				}
+				if f.Kind == "recommit-torsion" {
+					if torsionC == nil {
+						return
+					}
+					if c.Type == pair.commitType {
+						if nw, ok := setWireField(c.Wire, pair.commitField, torsionC, nil); ok {
+							c.Wire = nw
+							res.Applied++
+						}
+					}
+					if c.Type == pair.openType {
+						// only if this run really is the same run as the first pass
+						now := wireList(c.Wire, pair.openField)
+						same := len(now) == len(torsionOrig)
+						for i := range now {
+							same = same && now[i].Cmp(torsionOrig[i]) == 0
+						}
+						if !same {
+							res.Applied = -1000
+							return
+						}
+						if nw, ok := setWireField(c.Wire, pair.openField, nil, torsionD); ok {
+							c.Wire = nw
+							res.Applied++
+						}
+					}
+					continue
+				}
 				fc, fo := recommitment(pair, strings.TrimPrefix(f.Kind, "recommit-"))
 				if c.Type == pair.commitType {
 					if nw, ok := setWireField(c.Wire, pair.commitField, fc, nil); ok {
@@ -679,6 +823,11 @@ func runFault(fr faultRunner, f fault, seed int64) faultResult {
 		}
 		if strings.HasSuffix(f.Kind, "@same") && c.To.Idx != idxOfName(f.Deviator) {
 			seen[key] = c.Wire
+			return
+		}
+		if lateVictim != "" && !c.Bcast && c.From.Name == f.Deviator && c.Type == f.Type && c.To.Name != lateVictim {
+			// a point-to-point message: only the copy for the late starter is altered, so the other honest parties go on
+			// and their next-round messages reach the party whose Start has failed
 			return
 		}
 		if strings.HasSuffix(f.Kind, "@last") && c.From.Name == f.Deviator && c.Type == f.Type {
@@ -735,7 +884,7 @@ func runFault(fr faultRunner, f fault, seed int64) faultResult {
 					c.Wire = donor
 					res.Applied++
 				}
-			} else if nw, ok := alterField(c.Wire, f.Field, f.Index, strings.TrimSuffix(strings.TrimSuffix(f.Kind, "@same"), "@last"), rng, donor); ok {
+			} else if nw, ok := alterField(c.Wire, f.Field, f.Index, strings.TrimSuffix(strings.TrimSuffix(strings.TrimSuffix(f.Kind, "@same"), "@last"), "@late"), rng, donor); ok {
 				c.Wire = nw
 				res.Applied++
 			}
@@ -746,7 +895,16 @@ func runFault(fr faultRunner, f fault, seed int64) faultResult {
 	}
 	// deviator's messages are delivered last within each round, so that a donor message is available
 	net.Run(func(n *sched.Net, un []*sched.Node) int {
-		if len(un) > 0 {
+		if lateVictim != "" {
+			for k, u := range un {
+				if u.Name != lateVictim {
+					return -k - 1
+				}
+			}
+			if len(un) > 0 && len(n.Pending) == 0 {
+				return -1
+			}
+		} else if len(un) > 0 {
 			return -1
 		}
 		for i, c := range n.Pending {
@@ -774,6 +932,9 @@ func runFault(fr faultRunner, f fault, seed int64) faultResult {
 		}
 	}
 	res.BadOutput = fr.judge(rc, honest)
+	if f.Kind == "recommit-torsion" {
+		res.Baseline, res.Outcome = baseline, outcomeDigest(rc, f.Deviator)
+	}
 	if fr.erased != nil {
 		res.Erased = fr.erased(rc)
 	}
@@ -862,6 +1023,18 @@ func enumerateFaults(fr faultRunner, kinds []string, deviators []string, sampleI
 		senders[c.Type][c.From.Name] = true
 	}
 	net.Run(sched.FIFO, 200000)
+	// the message types of the first round: the lowest type indices that were seen (the first one, and the second when it comes
+	// from the same round: a point-to-point / broadcast pair)
+	firstRound := map[string]bool{}
+	for i, t := range net.Types {
+		if _, seen := types[t]; seen {
+			firstRound[t] = true
+			if i+1 < len(net.Types) && strings.TrimRight(t, "12") == strings.TrimRight(net.Types[i+1], "12") && strings.HasSuffix(t, "1") {
+				firstRound[net.Types[i+1]] = true
+			}
+			break
+		}
+	}
 	var tnames []string
 	for t := range types {
 		tnames = append(tnames, t)
@@ -895,6 +1068,10 @@ func enumerateFaults(fr faultRunner, kinds []string, deviators []string, sampleI
 					for _, k := range kinds {
 						out = append(out, fault{fr.proto, d, t, fi.name, ix, k})
 					}
+				}
+				if firstRound[t] && len(kinds) > 0 {
+					// the same alteration met by a party that has not called Start yet (the message waits in its inbox)
+					out = append(out, fault{fr.proto, d, t, fi.name, 0, kinds[0] + "@late"})
 				}
 				if p2pTypes[t] && !fi.list {
 					out = append(out, fault{fr.proto, d, t, fi.name, 0, "+1@same"})
@@ -979,6 +1156,9 @@ func faultList(fr faultRunner, tier, prop string) []fault {
 			for _, v := range variants {
 				rec = append(rec, fault{fr.proto, d, pair.commitType, pair.commitField, 0, "recommit-" + v})
 			}
+			if strings.HasPrefix(fr.proto, "eddsa") {
+				rec = append(rec, fault{fr.proto, d, pair.commitType, pair.commitField, 0, "recommit-torsion"})
+			}
 		}
 	}
 	if strings.HasSuffix(fr.proto, "keygen") || strings.HasSuffix(fr.proto, "resharing") {
@@ -1022,6 +1202,9 @@ func faultList(fr faultRunner, tier, prop string) []fault {
 	var forced []fault
 	for _, f := range all {
 		if strings.HasSuffix(f.Kind, "@same") || strings.HasPrefix(f.Kind, "recommit-") || strings.HasPrefix(f.Kind, "config-") {
+			forced = append(forced, f)
+		}
+		if strings.HasSuffix(f.Kind, "@late") && fr.cost <= 100 {
 			forced = append(forced, f)
 		}
 		// the recorded known finding (duplicate h1/h2 blame) is re-confirmed on every run
@@ -1289,6 +1472,9 @@ func judgeFault(r *vc.Run, prop string, res faultResult) {
 	if strings.HasPrefix(f.Kind, "mirror") && (f.Type == "KGRound1Message" && f.Proto == "ecdsa_keygen" || f.Type == "DGRound2Message1") && res.Applied > 0 && !refusedThere {
 		r.Violate(fmt.Sprintf("replay-accepted|%s|%s|%s", f.Proto, f.Type, f.Kind), fmt.Sprintf("another participant's ring-Pedersen parameters and DLN proofs were replayed by %s and nobody objected (%s)", f.Deviator, f.String()), replay)
 	}
+	if f.Kind == "recommit-torsion" {
+		judgeTorsion(r, res, replay)
+	}
 	if res.BadOutput != "" {
 		r.Violate(fmt.Sprintf("bad-output|%s|%s|%s", f.Proto, f.Type, f.Field), fmt.Sprintf("an honest party produced a bad output under %s: %s", f.String(), res.BadOutput), replay)
 	}
@@ -1334,6 +1520,41 @@ func judgeFault(r *vc.Run, prop string, res faultResult) {
 			}
 			if newFinished < honestNew {
 				r.Violate(fmt.Sprintf("reshare-key-loss|%s|%s|%s", f.Proto, f.Type, f.Field), fmt.Sprintf("honest old member %s erased its share but only %d of %d honest new members finished (%s)", e, newFinished, honestNew, f.String()), replay)
+			}
+		}
+	}
+}
+
+// judgeTorsion: a deviation that consists only of a small-order component added to a committed point is removed at the door
+// (every EdDSA round applies the cofactor-clearing map to every point it receives before any check): the honest parties must end
+// exactly as in the unaltered run with the same seed - same outputs, no error.
+func judgeTorsion(r *vc.Run, res faultResult, replay string) {
+	f := res.Fault
+	if res.Applied < 2 {
+		if res.Applied < 0 {
+			r.Note("%s: the second pass did not reproduce the first (different opening), case skipped", f.String())
+		}
+		return
+	}
+	if len(res.Culprits) > 0 || res.Outcome != res.Baseline {
+		r.Violate(fmt.Sprintf("torsion-not-cleared|%s|%s", f.Proto, f.Type), fmt.Sprintf("a point of order two added to the last committed point of %s (commitment and opening consistent) changes the outcome for the honest parties: errors=%v, outputs %s vs %s in the unaltered run; the cofactor-clearing map at this door should have removed it", f.Deviator, res.ErrText, res.Outcome, res.Baseline), replay)
+	}
+}
+
+// torsionRuns: the recommit-torsion faults of the EdDSA protocols, run in-process (C17: the message doors clear the cofactor).
+func torsionRuns(r *vc.Run) {
+	devs := map[string][]string{"eddsa_keygen": {"N0", "N2"}, "eddsa_signing": {"N1"}, "eddsa_resharing": {"O0", "O1"}}
+	for _, fr := range faultRunners() {
+		if !strings.HasPrefix(fr.proto, "eddsa") {
+			continue
+		}
+		for _, pair := range commitPairs[fr.proto] {
+			for di, d := range devs[fr.proto] {
+				f := fault{fr.proto, d, pair.commitType, pair.commitField, 0, "recommit-torsion"}
+				res := runFault(fr, f, r.Seed+int64(31+di))
+				r.Dist["torsion-at-message-door/"+fr.proto]++
+				r.CountCase(f.String(), res.Applied >= 2, fmt.Sprintf("%s => applied=%d culprits=%v same-outcome=%v", f.String(), res.Applied, res.Culprits, res.Outcome == res.Baseline))
+				judgeTorsion(r, res, f.String())
 			}
 		}
 	}
